@@ -43,7 +43,7 @@ def selftest():
     with open(os.path.join(d, "tags.out"), "w") as f:
         f.write('<<"REPLAY", %s>>\n' % json.dumps(json.dumps(rec)))
     s = vh_json(["c16", "--in", os.path.join(d, "tags.out")])
-    if s["bad"] != 2:
+    if s["bad"] != s["runs"] or s["runs"] < 2:       # (every back-end / interface the case is replayed through must report it)
         print("SELFTEST FAILED: c16 replay accepted a corrupted expectation", s)
         return 2
     return 0
